@@ -116,6 +116,57 @@ def run(ctx):
         for opc in range(0, 14): dlines.append('poly %d %d %d %s %s %s' % (opc, nn, rng.randrange(0, 2 * nn), rvn(nn, -600, 600), rvn(nn), rvn(nn)))
     rc, out, err = run_san(dexe, dlines, env, 3600)
     judge('ASan, stand-alone LWE / TLWE / polynomial operations', '%d operation lines' % len(dlines), rc, out, err, {'tool': 'asan-drv', 'lines': dlines})
+    # ---- the remaining API surface under ASan/LSan/UBSan: every encryption / decryption / key-generation entry point (enc_drv), the TGSW
+    #      operations in both domains and gate-level calls on a small key set (boot_drv), export and import of every object kind (io_drv)
+    def rv32(n): return ' '.join(str(rng.randrange(-2**31, 2**31)) for _ in range(n))
+    def rbits(n): return ' '.join(str(rng.randrange(2)) for _ in range(n))
+    NN = 1024
+    el = []
+    for n in (1, 7, 9):
+        pre = 'enc %%d %d %d 1048576 32768' % (rng.randrange(1, 10**6), rng.randrange(20))
+        el += [pre % 0 + ' %d' % n, pre % 1 + ' %d %s %d' % (n, rbits(n), rng.randrange(-2**31, 2**31)), pre % 2 + ' %d %s 1' % (n, rbits(n)),
+               pre % 14 + ' %d %s %d 12345 40' % (n, rbits(n), rng.randrange(-2**31, 2**31)), pre % 3 + ' %d %s %s %d 8' % (n, rbits(n), rv32(n), rng.randrange(-2**31, 2**31))]
+    for k in (1, 2):
+        pre = 'enc %%d %d %d 1048576 32768' % (rng.randrange(1, 10**6), rng.randrange(20)); key = rbits(k * NN)
+        el += [pre % 4 + ' %d %d' % (k, NN), pre % 5 + ' %d %d %s' % (k, NN, key), pre % 6 + ' %d %d %s %s' % (k, NN, key, rv32(NN)), pre % 7 + ' %d %d %s 536870912' % (k, NN, key),
+               pre % 8 + ' %d %d %s %s 8' % (k, NN, key, rv32((k + 1) * NN)), pre % 9 + ' %d %d %s %s 5' % (k, NN, key, rv32((k + 1) * NN)),
+               pre % 10 + ' %d %d 2 10 %s 1' % (k, NN, key), pre % 11 + ' %d %d 3 7 %s %s' % (k, NN, key, ' '.join(str(rng.randrange(8)) for _ in range(NN)))]
+    pre = 'enc %%d %d 3 1048576 32768' % rng.randrange(1, 10**6)
+    el += [pre % 12 + ' 5 3 4 2 %s %s' % (rbits(5), rbits(3)), pre % 15 + ' 5 3 4 2 %s %s' % (rbits(5), rbits(3)), pre % 12 + ' 3 9 2 8 %s %s' % (rbits(3), rbits(9)), pre % 13 + ' 3 1 1024 2 10 4 2']
+    eexe = vlib.build_harness('enc_drv.cpp', blib, 'spqlios-fma', 'asan')
+    rc, out, err = run_san(eexe, el, env, 3600)
+    judge('ASan, encryption / decryption / key-generation entry points', '%d calls' % len(el), rc, out, err, {'tool': 'asan-any', 'harness': 'enc_drv.cpp', 'lines': el})
+    bl = []
+    for (k, l, B) in ((1, 2, 10), (2, 3, 7)):
+        base = '%d %d %d %d' % (k, NN, l, B); rows = rv32((k + 1) * l * (k + 1) * NN); acc = rv32((k + 1) * NN)
+        bl += ['tgsw 1 %s %s' % (base, ' '.join(str(rng.randrange(-4, 5)) for _ in range(NN))), 'tgsw 0 %s %s %s' % (base, rows, acc), 'tgsw 100 %s %s %s' % (base, rows, acc),
+               'tgsw 2 %s %s %s' % (base, rows, ' '.join(str(rng.randrange(-4, 5)) for _ in range(NN))), 'tgsw 3 %s %s 5' % (base, rows), 'tgsw 4 %s %s %s 8' % (base, rows, rbits(k * NN)),
+               'tgsw 5 %s %s' % (base, rows), 'tgsw 6 %s %s %s' % (base, rows, acc), 'tgsw 7 %s %s %d' % (base, rows, rng.randrange(2 * NN)), 'tgsw 8 %s %s' % (base, rows), 'tgsw 9 %s %s' % (base, rows),
+               'tgsw 10 %s %s %s %s' % (base, rows, acc, ' '.join(str(rng.randrange(-8, 9)) for _ in range(NN))), 'tgsw 11 %s %s %s %s' % (base, rows, acc, ' '.join(str(rng.randrange(-8, 9)) for _ in range(NN))),
+               'tgsw 12 %s %s' % (base, rows), 'tgsw 13 %s %s' % (base, rows)]
+    spec = '0 3 1 2 10 4 2 32768 1048576 %d' % (ctx.seed + 5)
+    bl += ['fullkey ' + spec, 'fullcase %s 536870912 31 %s %d' % (spec, rv32(3), rng.randrange(-2**31, 2**31))]
+    for g in (0, 3, 13, 10, 11, 12, 413, 713): bl.append('gatecase %s %d %s' % (spec, g, ' '.join(rv32(3) + ' ' + str(rng.choice([2**29, -2**29])) for _ in range(3))))
+    bexe2 = vlib.build_harness('boot_drv.cpp', blib, 'spqlios-fma', 'asan')
+    rc, out, err = run_san(bexe2, bl, env, 3600)
+    judge('ASan, TGSW operations in both domains and gate-level calls on a small key set', '%d calls' % len(bl), rc, out, err, {'tool': 'asan-any', 'harness': 'boot_drv.cpp', 'lines': bl})
+    import codecgen as G
+    iexe = vlib.build_harness('io_drv.cpp', blib, 'spqlios-fma', 'asan')
+    xl = []; xmeta = []
+    for code in range(1, 15):
+        f, c = G.gen(rng, code)
+        for tr in (0, 1): xl.append('cexp %d %d %s' % (code, tr, ' '.join(map(str, f)))); xmeta.append((code, tr, c))
+    noleak = dict(env, ASAN_OPTIONS=env.get('ASAN_OPTIONS', '') + ':detect_leaks=0')      # io_drv builds its objects and never frees them (and its importing child aborts on purpose on bad input): memory errors only
+    rc, out, err = run_san(iexe, xl, noleak, 3600)
+    if judge('ASan, export of every object kind on both transports', '%d exports' % len(xl), rc, out, err, {'tool': 'asan-any', 'harness': 'io_drv.cpp', 'lines': [x[:20000] for x in xl]}):
+        ml = []
+        for (code, tr, c), o in zip(xmeta, out.split('\n')):
+            b = o.split()
+            if code in (13, 14) or not b: continue
+            ml.append('cimp %d %d %s %d %s' % (code, tr, ' '.join(map(str, c)), len(b), ' '.join(b)))
+            if len(b) > 40: ml.append('cimp %d %d %s %d %s' % (code, tr, ' '.join(map(str, c)), len(b) - 7, ' '.join(b[:-7])))      # and a truncated one (the importer's error path)
+        rc, out, err = run_san(iexe, ml, noleak, 3600)
+        judge('ASan, import of every object kind on both transports (complete and truncated)', '%d imports' % len(ml), rc, out, err, {'tool': 'asan-any', 'harness': 'io_drv.cpp', 'lines': [x[:20000] for x in ml]})
     # every FFT back-end under ASan: all transform / Lagrange-domain entry points once (the lifecycles above run on spqlios-fma)
     NN = 1024
     def rv(lo, hi): return ' '.join(str(rng.randrange(lo, hi)) for _ in range(NN))
@@ -220,6 +271,9 @@ def replay(ctx, data):
     elif tool == 'asan-be':
         exe = vlib.build_harness('mem_drv.cpp', vlib.build_lib('asan'), data.get('backend', 'fftw'), 'asan')
         rc, out, err = run_san(exe, lines, dict(os.environ, ASAN_OPTIONS='detect_leaks=1:exitcode=99'), 7200); print('exit', rc, out[-200:], err[-1500:])
+    elif tool == 'asan-any':
+        exe = vlib.build_harness(data.get('harness', 'drv.cpp'), vlib.build_lib('asan'), 'spqlios-fma', 'asan')
+        rc, out, err = run_san(exe, lines, dict(os.environ, ASAN_OPTIONS='detect_leaks=1:exitcode=99'), 7200); print('exit', rc, out[-300:], err[-1500:])
     elif tool == 'asan-drv':
         exe = vlib.build_harness('drv.cpp', vlib.build_lib('asan'), 'spqlios-fma', 'asan')
         rc, out, err = run_san(exe, lines, dict(os.environ, ASAN_OPTIONS='detect_leaks=1:exitcode=99'), 7200); print('exit', rc, err[-1500:])
